@@ -1,15 +1,550 @@
-import RV.Proofs.Collision
+import RV.Proofs.CollisionResolve
+import RV.Proofs.CollisionPrune
 /-
   C13 — collisions are detected completely and resolved conservatively.
+
+  Statements are about the definitions in RV/Model/Collision.lean — the same ones the driver
+  `drv_c13` runs on IEEE doubles against collision.c / particle.c.  Arithmetic statements are
+  over an arbitrary ordered field `K` (exact arithmetic); the index statements are about
+  `Int`/`List` and hold for every particle payload, every identity type, every pending list,
+  every processing order and every resolver.
 -/
+set_option linter.unusedVariables false
+set_option linter.unusedSectionVars false
+set_option linter.unusedSimpArgs false
 namespace RV.Collision
 open RV
 
-/-- the post-search loop never changes the length of the pending list (no entry is dropped
-    or duplicated by the fix-ups) -/
-theorem c13_fixup_length {α G : Type} (flag : α → α) (resolve : Sim α → Coll G → Sim α × Nat)
-    (ks : Bool) (s : Sim α) (c : Coll G) (rest : List (Coll G)) :
-    (processOne flag resolve ks s c rest).2.1.length = rest.length :=
-  processOne_length flag resolve ks s c rest
+/-! ## 1. searches -/
+section search
+variable {K : Type} [Field K] [LinearOrder K] [IsStrictOrderedRing K]
+
+/-- DIRECT search, ∀ N, ∀ ghost rings: the three nested loops with their `continue`s report
+    exactly the declarative list (ghost boxes × ordered pairs, filtered), in that order, each
+    triple once. -/
+theorem c13_direct_search_spec (ring : List (GB K)) (cand : List (Nat × Part K)) (nInner : Nat) :
+    directSearch ring cand nInner = directSpec ring cand nInner :=
+  directSearch_eq_spec ring cand nInner
+
+/-- DIRECT search, declaratively: `(p1,p2,gb)` is handed on iff `p1 = particles[i]`,
+    `p2 = particles[j]` with `i ≠ j`, `j < Ninner`, the ghost-shifted p1 overlaps p2
+    (`‖d‖² ≤ (r₁+r₂)²`) and they are not receding (`d·dv ≤ 0`). -/
+theorem c13_direct_reported_iff (ring : List (GB K)) (cand : List (Nat × Part K)) (nInner : Nat)
+    (c : Coll (GB K)) :
+    c ∈ directSearch ring cand nInner ↔
+      ∃ gb ∈ ring, ∃ (i j : Nat) (hi : i < cand.length) (hj : j < cand.length),
+        j < nInner ∧ i ≠ j ∧
+        (gb.x + cand[i].2.x - cand[j].2.x)^2 + (gb.y + cand[i].2.y - cand[j].2.y)^2
+          + (gb.z + cand[i].2.z - cand[j].2.z)^2 ≤ (cand[i].2.r + cand[j].2.r)^2 ∧
+        (gb.vx + cand[i].2.vx - cand[j].2.vx) * (gb.x + cand[i].2.x - cand[j].2.x)
+          + (gb.vy + cand[i].2.vy - cand[j].2.vy) * (gb.y + cand[i].2.y - cand[j].2.y)
+          + (gb.vz + cand[i].2.vz - cand[j].2.vz) * (gb.z + cand[i].2.z - cand[j].2.z) ≤ 0 ∧
+        c = ⟨(cand[i].1 : Int), (cand[j].1 : Int), gb⟩ := by
+  rw [directSearch_eq_spec, mem_directSpec]
+  simp only [directHit_iff, shiftGB, sc_hadd, and_assoc]
+
+/-- LINE search, ∀ N: the loops report exactly the pairs `i < j` passing the line test -/
+theorem c13_line_search_spec (dt : K) (ring : List (GB K)) (cand : List (Nat × Part K)) :
+    lineSearch dt ring cand = lineSpec dt ring cand :=
+  lineSearch_eq_spec dt ring cand
+
+/-- LINE search, declaratively: reported iff `i < j` and the code's `rmin2_ab ≤ (r₁+r₂)²` -/
+theorem c13_line_reported_iff (dt : K) (ring : List (GB K)) (cand : List (Nat × Part K))
+    (c : Coll (GB K)) :
+    c ∈ lineSearch dt ring cand ↔
+      ∃ gb ∈ ring, ∃ (i j : Nat) (hij : i < j) (hj : j < cand.length),
+        lineRmin2 dt (shiftGB gb (cand[i]'(by omega)).2) cand[j].2
+          ≤ ((cand[i]'(by omega)).2.r + cand[j].2.r)^2 ∧
+        c = ⟨((cand[i]'(by omega)).1 : Int), (cand[j].1 : Int), gb⟩ := by
+  rw [lineSearch_eq_spec]
+  unfold lineSpec
+  simp only [List.mem_flatMap, mem_lineSpecI]
+  have key : ∀ (g : GB K) (r1 : K) (p2 : Part K),
+      lineHit dt g r1 p2 = true ↔ lineRmin2 dt g p2 ≤ (r1 + p2.r)^2 := by
+    intro g r1 p2
+    unfold lineHit
+    simp only [gt_iff', sc_hadd, sc_hmul, decide_eq_true_eq]
+    constructor
+    · intro h
+      split at h
+      · cases h
+      · rename_i h1; have := not_lt.mp h1; nlinarith [this]
+    · intro h
+      rw [if_neg]; apply not_lt.mpr; nlinarith [h]
+  simp only [key]
+
+/-- the code's `rmin2_ab` is the minimum over the last step of the squared separation of the
+    straight-line paths: a lower bound at every time `τ` before the end of the step with
+    `0 ≤ τ/dt ≤ 1` (either sign of `dt`) … -/
+theorem c13_line_rmin2_lower (dt : K) (hdt : dt ≠ 0) (g : GB K) (p2 : Part K) (τ : K)
+    (h0 : 0 ≤ τ/dt) (h1 : τ/dt ≤ 1) :
+    lineRmin2 dt g p2 ≤
+      (g.x - p2.x - τ*(g.vx - p2.vx))^2 + (g.y - p2.y - τ*(g.vy - p2.vy))^2
+        + (g.z - p2.z - τ*(g.vz - p2.vz))^2 := by
+  have := lineRmin2_le dt hdt g p2 τ h0 h1
+  simpa [sep2, lineQ] using this
+
+/-- … and attained at some time of the step.  Hence a pair is reported by the LINE test iff the
+    two straight-line paths came within `r₁+r₂` during the last step. -/
+theorem c13_line_rmin2_attained (dt : K) (hdt : dt ≠ 0) (g : GB K) (p2 : Part K) :
+    ∃ τ, 0 ≤ τ/dt ∧ τ/dt ≤ 1 ∧ lineRmin2 dt g p2 =
+      (g.x - p2.x - τ*(g.vx - p2.vx))^2 + (g.y - p2.y - τ*(g.vy - p2.vy))^2
+        + (g.z - p2.z - τ*(g.vz - p2.vz))^2 := by
+  obtain ⟨τ, a, b, e⟩ := lineRmin2_attained dt hdt g p2
+  exact ⟨τ, a, b, by simpa [sep2, lineQ] using e⟩
+
+/-- the `dv = 0` corner (C: `t_closest = 0/0 = NaN`, both range comparisons false): for every
+    value of `t_closest` and either outcome of the range test, `rmin2_ab` is the constant squared
+    separation -/
+theorem c13_line_dv0 (dt : K) (g : GB K) (p2 : Part K)
+    (hx : g.vx = p2.vx) (hy : g.vy = p2.vy) (hz : g.vz = p2.vz) (tc : K) (inr : Bool) :
+    lineRmin2Gen (lineQ dt g p2) tc inr = (g.x - p2.x)^2 + (g.y - p2.y)^2 + (g.z - p2.z)^2 := by
+  have h : (lineQ dt g p2).dvx1 = 0 ∧ (lineQ dt g p2).dvy1 = 0 ∧ (lineQ dt g p2).dvz1 = 0 := by
+    simp [lineQ, hx, hy, hz]
+  rw [lineRmin2Gen_dv0 dt g p2 h tc inr 0]
+  simp [sep2, lineQ]
+
+/-- the ghost ring: `gbx` runs over `-c … c` with `c = min(N_ghost_x, 1)` (empty if negative) -/
+theorem c13_ghost_ring (ngx ngy ngz : Int) (a b c : Int) :
+    (a, b, c) ∈ ghostRing ngx ngy ngz ↔
+      (-(ghostCol ngx) ≤ a ∧ a ≤ ghostCol ngx) ∧ (-(ghostCol ngy) ≤ b ∧ b ≤ ghostCol ngy) ∧
+      (-(ghostCol ngz) ≤ c ∧ c ≤ ghostCol ngz) := by
+  have key : ∀ (n x : Int), x ∈ ghostRange n ↔ -n ≤ x ∧ x ≤ n := by
+    intro n x
+    unfold ghostRange
+    simp only [List.mem_map, List.mem_range]
+    constructor
+    · rintro ⟨k, hk, rfl⟩; omega
+    · rintro ⟨h1, h2⟩; exact ⟨(x + n).toNat, by omega, by omega⟩
+  unfold ghostRing
+  simp only [List.mem_flatMap, List.mem_map, Prod.mk.injEq]
+  constructor
+  · rintro ⟨a', ha, b', hb, c', hc, rfl, rfl, rfl⟩
+    exact ⟨(key _ _).mp ha, (key _ _).mp hb, (key _ _).mp hc⟩
+  · rintro ⟨ha, hb, hc⟩
+    exact ⟨a, (key _ _).mpr ha, b, (key _ _).mpr hb, c, (key _ _).mpr hc, rfl, rfl, rfl⟩
+
+end search
+
+/-! ## 2. shuffle and index fix-ups -/
+section fixup
+variable {α G ι : Type}
+
+/-- the `rand_r` swap loop only permutes the pending list, whatever numbers are drawn -/
+theorem c13_shuffle_perm (seed : UInt32) (l : List (Coll G)) : (shuffle seed l).1.Perm l :=
+  shuffle_perm seed l
+
+/-- A4, one removal: for a surviving index `p ≠ i`, the index computed by the code
+    (`p-1` if `p > i` in sorted mode; `i` if `p` was the last index in swap mode) names in the
+    new array the identity that `p` named in the old one. -/
+theorem c13_fixup_index (ks : Bool) (l : List ι) (i p : Nat) (hi : i < l.length)
+    (hp : p < l.length) (hne : p ≠ i) :
+    denote (rmList ks l i) (fixIdx ks (i : Int) ((l.length : Int) - 1) (p : Int)) = l[p]? :=
+  rmList_getElem? ks l i p hi hp hne
+
+/-- A4, one iteration of collision.c:386-487 on a live entry, in every accepted configuration
+    (sorted / unsorted without tree, unsorted with tree), for every resolver outcome (bits 0 and
+    1 of any integer): the resolver receives the particles carrying exactly the two identities
+    `a`,`b` the entry denoted; afterwards every later entry still tracks its own pair — void iff
+    one of its identities was removed, otherwise naming the same two identities — and the
+    identity list of the array is the old one minus exactly the requested identities (same
+    order when sorted, a permutation when unsorted, unchanged when a tree exists). -/
+theorem c13_fixup_step [DecidableEq ι] (v : RmVariant) (ident : α → ι) (flag : α → α)
+    (hflag : ∀ a, ident (flag a) = ident a)
+    (res : Sim α → Coll G → Sim α × Nat) (hres : ResOK ident res)
+    (ks : Bool) (s : Sim α) (hc : Cfg ks s) (hn : (ids ident s).Nodup)
+    (c : Coll G) (a b : ι) (hab : a ≠ b)
+    (h1 : denote (ids ident s) c.p1 = some a) (h2 : denote (ids ident s) c.p2 = some b)
+    (rest : List (Coll G)) (ds : List (ι × ι)) (dead : List ι)
+    (htr : List.Forall₂ (Tracks (ids ident s) dead) rest ds) :
+    ∃ s' rest' pa pb, processOne v flag res ks s c rest =
+        (s', rest', some ⟨c, some pa, some pb, (res s c).2⟩) ∧
+      ident pa = a ∧ ident pb = b ∧
+      Cfg ks s' ∧ s'.tree = s.tree ∧ (ids ident s').Nodup ∧
+      List.Forall₂ (Tracks (ids ident s') (dead ++ remOf a b (res s c).2)) rest' ds ∧
+      IdsAfter ks s.tree (ids ident s) (remOf a b (res s c).2) (ids ident s') :=
+  processOne_live ident v flag hflag res hres ks s hc hn c a b hab h1 h2 rest ds dead htr
+
+/-- **fix-up invariant** (A4), whole loop: ∀ particle arrays with distinct identities,
+    ∀ pending lists of valid entries, ∀ processing orders `sh` (any permutation of the list —
+    in particular the `rand_r` shuffle), ∀ resolvers that do not restructure the array:
+
+    * `Run`: going through `sh` in order, the resolver is called exactly for the entries whose
+      two identities are both still alive, with the particles carrying those identities; entries
+      naming a removed identity are skipped (nothing is resolved after its removal, nothing twice);
+      `dead` collects exactly the identities the outcomes asked to remove;
+    * the final array has no duplicates; without a tree it contains exactly the identities of the
+      initial array that are not in `dead` (nothing lost, nothing resurrected), in the original
+      order when keep_sorted; with a tree the array is untouched (particles are only flagged). -/
+theorem c13_fixup_invariant [DecidableEq ι] (v : RmVariant) (ident : α → ι) (flag : α → α)
+    (hflag : ∀ a, ident (flag a) = ident a)
+    (res : Sim α → Coll G → Sim α × Nat) (hres : ResOK ident res)
+    (ks : Bool) (s0 : Sim α) (hc : Cfg ks s0) (hn : (ids ident s0).Nodup)
+    (pend sh : List (Coll G)) (hperm : sh.Perm pend) (ds : List (ι × ι))
+    (hvalid : List.Forall₂ (fun e d => d.1 ≠ d.2 ∧ denote (ids ident s0) e.p1 = some d.1 ∧
+      denote (ids ident s0) e.p2 = some d.2) sh ds) :
+    ∃ dead, Run ident [] ds (processLoop v flag res ks s0 sh).2 dead ∧
+      (ids ident (processLoop v flag res ks s0 sh).1).Nodup ∧
+      (s0.tree = false →
+        (∀ x, x ∈ ids ident (processLoop v flag res ks s0 sh).1 ↔ x ∈ ids ident s0 ∧ x ∉ dead) ∧
+        (ks = true → (ids ident (processLoop v flag res ks s0 sh).1).Sublist (ids ident s0))) ∧
+      (s0.tree = true → ids ident (processLoop v flag res ks s0 sh).1 = ids ident s0) := by
+  have hdist : ∀ d ∈ ds, d.1 ≠ d.2 := by
+    clear hperm
+    induction hvalid with
+    | nil => intro d hd; cases hd
+    | cons h _ ih =>
+      intro d hd
+      rcases List.mem_cons.mp hd with rfl | hd
+      · exact h.1
+      · exact ih d hd
+  have htr : List.Forall₂ (Tracks (ids ident s0) []) sh ds := by
+    refine List.Forall₂.imp ?_ hvalid
+    intro e d h
+    right
+    exact ⟨by simp, by simp, h.2.1, h.2.2⟩
+  obtain ⟨rem, hrun, hids, hnd, hcf, htf⟩ :=
+    processLoop_spec ident v flag hflag res hres ks ds hdist s0 sh [] hc hn htr
+  refine ⟨rem, by simpa using hrun, hnd, ?_, ?_⟩
+  · intro ht
+    unfold IdsAfter at hids
+    rw [ht] at hids
+    simp only [Bool.false_eq_true, if_false] at hids
+    have hmem : ∀ x, x ∈ ids ident (processLoop v flag res ks s0 sh).1 ↔
+        x ∈ rem.foldl List.erase (ids ident s0) := by
+      intro x
+      cases ks
+      · simp only [Bool.false_eq_true, if_false] at hids; exact hids.mem_iff
+      · simp only [if_true] at hids; rw [hids]
+    refine ⟨fun x => by rw [hmem, mem_foldl_erase rem hn], ?_⟩
+    · intro hk
+      subst hk
+      simp only [if_true] at hids
+      rw [hids]; exact foldl_erase_sublist rem _
+  · intro ht
+    unfold IdsAfter at hids
+    rw [ht] at hids
+    simpa using hids
+
+/-- what `reb_simulation_remove_particle` does in the refused configuration keep_sorted + tree
+    (F4): in the pinned tree it shifts the array, decrements N (and N_active), *then* reports the
+    error and returns 0 — so the driver applies no fix-up to the later entries although the
+    indices moved.  (With the guard moved in front, `sortedTreeErrFirst`, the array is left
+    alone.)  This is why `c13_fixup_invariant` excludes that configuration (`Cfg.mode`). -/
+theorem c13_sorted_tree_removal_refused (v : RmVariant) (flag : α → α) (s : Sim α) (i : Nat)
+    (hi : i < s.ps.length) (h2 : 2 ≤ s.ps.length) (hv : s.nVar = 0) (ht : s.tree = true) :
+    (removeParticle v flag s (i : Int) true).2 = false ∧
+    (removeParticle v flag s (i : Int) true).1.err = s.err + 1 ∧
+    (removeParticle v flag s (i : Int) true).1.ps =
+      if v.sortedTreeErrFirst then s.ps else s.ps.eraseIdx i := by
+  unfold removeParticle
+  have hN : ((s.ps.length : Int) == 1) = false := by
+    rw [beq_eq_false_iff_ne]; omega
+  have hr : ¬ (s.ps.length ≤ i ∨ (i : Int) < 0) := by omega
+  cases hf : v.sortedTreeErrFirst <;> simp [hN, hr, hv, ht, hf]
+
+/-- the other refused cases: an index outside the array, or variational particles present,
+    leave the array untouched, report an error and return 0 -/
+theorem c13_removal_error_cases (v : RmVariant) (flag : α → α) (s : Sim α) (idx : Int) (ks : Bool)
+    (hN : s.ps.length ≠ 1) (h : idx < 0 ∨ idx ≥ s.ps.length ∨ s.nVar ≠ 0) :
+    (removeParticle v flag s idx ks).2 = false ∧ (removeParticle v flag s idx ks).1.ps = s.ps ∧
+    (removeParticle v flag s idx ks).1.err = s.err + 1 := by
+  unfold removeParticle
+  have hN' : ((s.ps.length : Int) == 1) = false := by
+    rw [beq_eq_false_iff_ne]; omega
+  by_cases hr : idx ≥ (s.ps.length : Int) ∨ idx < 0
+  · have : (decide (idx ≥ (s.ps.length : Int)) || decide (idx < 0)) = true := by
+      simpa using hr
+    simp [hN', this]
+  · have hr' : (decide (idx ≥ (s.ps.length : Int)) || decide (idx < 0)) = false := by
+      simp; omega
+    have hv : s.nVar ≠ 0 := by
+      rcases h with h | h | h
+      · omega
+      · omega
+      · exact h
+    simp [hN', hr', hv]
+
+end fixup
+
+/-! ## 3. merge -/
+section merge
+variable {K : Type} [Field K] [LinearOrder K] [IsStrictOrderedRing K]
+
+/-- the merged particle carries the summed mass, momentum and mass-weighted position of the
+    pair (total mass non-zero), keeps the survivor's identity and is stamped
+    `last_collision = t` -/
+theorem c13_merge_pair_conserves (cbrtF : K → K) (t : K) (pi pj : Part K) (hm : pi.m + pj.m ≠ 0) :
+    let p := mergePair cbrtF t pi pj
+    p.m = pi.m + pj.m ∧
+    p.m * p.vx = pi.m * pi.vx + pj.m * pj.vx ∧ p.m * p.vy = pi.m * pi.vy + pj.m * pj.vy ∧
+    p.m * p.vz = pi.m * pi.vz + pj.m * pj.vz ∧
+    p.m * p.x = pi.m * pi.x + pj.m * pj.x ∧ p.m * p.y = pi.m * pi.y + pj.m * pj.y ∧
+    p.m * p.z = pi.m * pi.z + pj.m * pj.z ∧ p.id = pi.id ∧ p.lc = t := by
+  have h := mergePair_additive cbrtF t pi pj hm
+  simp only [conservedQ, List.mem_cons, List.not_mem_nil, or_false, forall_eq_or_imp, forall_eq] at h
+  obtain ⟨h1, h2, h3, h4, h5, h6, h7⟩ := h
+  exact ⟨h1, h2, h3, h4, h5, h6, h7, rfl, rfl⟩
+
+/-- the return value asks for the removal of the *higher* index (1 = p1, 2 = p2), the lower
+    index receives the merged particle -/
+theorem c13_merge_removes_higher_index (cbrtF : K → K) (t : K) (s : Sim (Part K)) (c : Coll (GB K))
+    (n1 n2 : Nat) (hp1 : c.p1 = n1) (hp2 : c.p2 = n2) (h1 : n1 < s.ps.length) (h2 : n2 < s.ps.length)
+    (hlc1 : s.ps[n1].lc ≠ t) (hlc2 : s.ps[n2].lc ≠ t) :
+    merge cbrtF t s c =
+      if n2 < n1 then ({ s with ps := s.ps.set n2 (mergePair cbrtF t s.ps[n2] s.ps[n1]) }, 1)
+      else ({ s with ps := s.ps.set n1 (mergePair cbrtF t s.ps[n1] s.ps[n2]) }, 2) :=
+  merge_eval cbrtF t s c n1 n2 hp1 hp2 h1 h2 hlc1 hlc2
+
+/-- a particle that took part in a collision at time `t` is not merged again at `t`:
+    the guard returns 0 and leaves the state alone -/
+theorem c13_merge_not_twice (cbrtF : K → K) (t : K) (s : Sim (Part K)) (c : Coll (GB K))
+    (q1 q2 : Part K) (l1 : lookup s c.p1 = some q1) (l2 : lookup s c.p2 = some q2)
+    (h : q1.lc = t ∨ q2.lc = t) : merge cbrtF t s c = (s, 0) :=
+  merge_guard cbrtF t s c q1 q2 l1 l2 h
+
+/-- merge satisfies the resolver hypothesis of `c13_fixup_invariant` -/
+theorem c13_merge_is_admissible_resolver (cbrtF : K → K) (t : K) :
+    ResOK (fun p : Part K => p.id) (G := GB K) (merge cbrtF t) :=
+  merge_resOK cbrtF t
+
+/-- **merge step on the array** (no tree, sorted or unsorted removal): one iteration of the
+    driver with the merge resolver on a valid entry removes exactly one particle and conserves
+    the array totals of mass, momentum and mass-weighted position (centre of mass). -/
+theorem c13_merge_step_conserves (v : RmVariant) (cbrtF : K → K) (t : K) (ks : Bool) (s : Sim (Part K))
+    (hc : Cfg ks s) (ht : s.tree = false) (c : Coll (GB K)) (rest : List (Coll (GB K)))
+    (n1 n2 : Nat) (hp1 : c.p1 = n1) (hp2 : c.p2 = n2) (hne : n1 ≠ n2)
+    (h1 : n1 < s.ps.length) (h2 : n2 < s.ps.length)
+    (hlc1 : s.ps[n1].lc ≠ t) (hlc2 : s.ps[n2].lc ≠ t) (hm : s.ps[n1].m + s.ps[n2].m ≠ 0) :
+    let s' := (processOne v flagPart (merge cbrtF t) ks s c rest).1
+    s'.ps.length + 1 = s.ps.length ∧
+    ∀ f ∈ (conservedQ : List (Part K → K)), total f s'.ps = total f s.ps := by
+  have hev := merge_eval cbrtF t s c n1 n2 hp1 hp2 h1 h2 hlc1 hlc2
+  have hcond : (c.p1 != -1 && c.p2 != -1) = true := by
+    simp only [Bool.and_eq_true, bne_iff_ne]; omega
+  -- WLOG on the order of the two indices; `lo` survives, `hi` is removed
+  by_cases hsw : n2 < n1
+  · rw [if_pos hsw] at hev
+    set s1 : Sim (Part K) := { s with ps := s.ps.set n2 (mergePair cbrtF t s.ps[n2] s.ps[n1]) } with hs1
+    have hc1 : Cfg ks s1 := ⟨hc.nvar, hc.hyb, hc.mode⟩
+    have hlen1 : n1 < s1.ps.length := by simp [hs1]; exact h1
+    obtain ⟨s', hrm, hps, _, _, _⟩ := removeParticle_notree v flagPart s1 ks n1 hlen1 hc1 ht
+    have hproc : (processOne v flagPart (merge cbrtF t) ks s c rest).1 = s' := by
+      unfold processOne
+      simp only [hcond, if_true, hev]
+      unfold removeAndFix
+      simp [hp1, hrm]
+      split <;> rfl
+    intro s''
+    have e : s'' = s' := hproc
+    rw [e, hps]
+    refine ⟨?_, ?_⟩
+    · rw [rmList_length ks _ n1 hlen1]; simp [hs1]; omega
+    · intro f hf
+      have hadd := mergePair_additive cbrtF t s.ps[n2] s.ps[n1] (by rw [add_comm]; exact hm) f hf
+      exact total_merge f ks s.ps n2 n1 (Ne.symm hne) h2 h1 _ hadd
+  · rw [if_neg hsw] at hev
+    set s1 : Sim (Part K) := { s with ps := s.ps.set n1 (mergePair cbrtF t s.ps[n1] s.ps[n2]) } with hs1
+    have hc1 : Cfg ks s1 := ⟨hc.nvar, hc.hyb, hc.mode⟩
+    have hlen1 : n2 < s1.ps.length := by simp [hs1]; exact h2
+    obtain ⟨s', hrm, hps, _, _, _⟩ := removeParticle_notree v flagPart s1 ks n2 hlen1 hc1 ht
+    have hproc : (processOne v flagPart (merge cbrtF t) ks s c rest).1 = s' := by
+      unfold processOne
+      simp only [hcond, if_true, hev]
+      unfold removeAndFix
+      simp [hp2, hrm]
+      split <;> rfl
+    intro s''
+    have e : s'' = s' := hproc
+    rw [e, hps]
+    refine ⟨?_, ?_⟩
+    · rw [rmList_length ks _ n2 hlen1]; simp [hs1]; omega
+    · intro f hf
+      have hadd := mergePair_additive cbrtF t s.ps[n1] s.ps[n2] hm f hf
+      exact total_merge f ks s.ps n1 n2 hne h1 h2 _ hadd
+
+end merge
+
+/-! ## 4. hard sphere -/
+section hardsphere
+variable {K : Type} [Field K] [LinearOrder K] [IsStrictOrderedRing K]
+
+/-- a bounce conserves the pair's momentum and moves nobody, for every impulse `dvx2`, every
+    rotation and every restitution (total mass non-zero) -/
+theorem c13_hardsphere_momentum (st ct sp cp dvx2 t : K) (p1 p2 : Part K) (hM : p1.m + p2.m ≠ 0) :
+    let n := hsApply st ct sp cp dvx2 t p1 p2 p1 p2
+    n.1.m * n.1.vx + n.2.m * n.2.vx = p1.m * p1.vx + p2.m * p2.vx ∧
+    n.1.m * n.1.vy + n.2.m * n.2.vy = p1.m * p1.vy + p2.m * p2.vy ∧
+    n.1.m * n.1.vz + n.2.m * n.2.vz = p1.m * p1.vz + p2.m * p2.vz ∧
+    n.1.m = p1.m ∧ n.2.m = p2.m ∧
+    (n.1.x, n.1.y, n.1.z) = (p1.x, p1.y, p1.z) ∧ (n.2.x, n.2.y, n.2.z) = (p2.x, p2.y, p2.z) := by
+  simp only [hsApply, sc_hadd, sc_hsub, sc_hmul, sc_hdiv, and_true]
+  refine ⟨?_, ?_, ?_⟩ <;> field_simp <;> ring
+
+/-- with `minimum_collision_velocity = 0` an approaching pair receives the impulse
+    `−(1+ε)·vₙ` along the axis; in general the clamp can only increase it -/
+theorem c13_hardsphere_impulse (eps mcv rr vn : K) (p1 p2 : Part K) :
+    -(1 + eps) * vn ≤ hsDvx2 eps mcv rr vn p1 p2 ∧
+    (mcv = 0 → vn ≤ 0 → 0 ≤ 1 + eps → hsDvx2 eps mcv rr vn p1 p2 = -(1 + eps) * vn) :=
+  ⟨hsDvx2_ge eps mcv rr vn p1 p2, fun h1 h2 h3 => by subst h1; exact hsDvx2_unclamped eps rr vn p1 p2 h2 h3⟩
+
+/-- the relative velocity along the impulse axis after the bounce is `vₙ + dvx2`
+    (rotation given by `sin²+cos² = 1` for both angles); with `dvx2 = −(1+ε)vₙ` it is `−ε·vₙ`,
+    i.e. separating for `ε ≥ 0`, `vₙ ≤ 0` -/
+theorem c13_hardsphere_normal_velocity (st ct sp cp dvx2 t : K) (gb : GB K) (p1 p2 : Part K)
+    (hθ : st*st + ct*ct = 1) (hφ : sp*sp + cp*cp = 1) (hM : p1.m + p2.m ≠ 0) :
+    let n := hsApply st ct sp cp dvx2 t p1 p2 p1 p2
+    hsVn st ct sp cp (relOf n.1 n.2 gb) = hsVn st ct sp cp (relOf p1 p2 gb) + dvx2 := by
+  have hu := axis_unit st ct sp cp hθ hφ
+  simp only [hsApply, hsVn, relOf, sc_hadd, sc_hsub, sc_hmul, sc_hdiv]
+  field_simp
+  linear_combination (dvx2 * (p1.m + p2.m)) * hu
+
+/-- restitution 1 (and no velocity floor) conserves the kinetic energy of the pair, measured in
+    the frame of the ghost box of p1 (`v₁ + gb.v`, `v₂`) -/
+theorem c13_hardsphere_energy (st ct sp cp t : K) (gb : GB K) (p1 p2 : Part K)
+    (hθ : st*st + ct*ct = 1) (hφ : sp*sp + cp*cp = 1) (hM : p1.m + p2.m ≠ 0) :
+    let vn := hsVn st ct sp cp (relOf p1 p2 gb)
+    let n := hsApply st ct sp cp (-(1 + 1) * vn) t p1 p2 p1 p2
+    n.1.m * ((n.1.vx + gb.vx)^2 + (n.1.vy + gb.vy)^2 + (n.1.vz + gb.vz)^2)
+      + n.2.m * (n.2.vx^2 + n.2.vy^2 + n.2.vz^2)
+    = p1.m * ((p1.vx + gb.vx)^2 + (p1.vy + gb.vy)^2 + (p1.vz + gb.vz)^2)
+      + p2.m * (p2.vx^2 + p2.vy^2 + p2.vz^2) := by
+  have hu := axis_unit st ct sp cp hθ hφ
+  obtain ⟨M, hMd⟩ : ∃ M, M = p1.m + p2.m := ⟨_, rfl⟩
+  obtain ⟨b, hb⟩ : ∃ b, b = p1.m / M := ⟨_, rfl⟩
+  have hM' : M ≠ 0 := by rw [hMd]; exact hM
+  have e1 : p1.m = M * b := by rw [hb]; field_simp
+  have e2 : p2.m = M * (1 - b) := by rw [mul_sub, mul_one, ← e1, hMd]; ring
+  have f1 : p1.m / (p1.m + p2.m) = b := by rw [← hMd, hb]
+  have f2 : p2.m / (p1.m + p2.m) = 1 - b := by rw [← hMd, e2]; field_simp
+  have key := elastic_axis M b cp (sp*ct) (sp*st) (p1.vx + gb.vx) (p1.vy + gb.vy) (p1.vz + gb.vz)
+    p2.vx p2.vy p2.vz hM' hu
+  simp only [hsApply, hsVn, relOf, sc_hadd, sc_hsub, sc_hmul, sc_hdiv, f1, f2]
+  simp only at key
+  rw [e1, e2]
+  linear_combination key
+
+/-- the impulse axis *is* the line of centres when the two rotations align it as `atan2` does:
+    `(cosθ, sinθ)·ρ = (y₂₁, z₂₁)` and `(cosφ, sinφ)·R = (x₂₁, y₂₁ₙ)`.  Then
+    `R·vₙ = r₂₁·v₂₁`, so after a bounce with restitution `ε ≥ 0` the pair separates:
+    `r₂₁·v₂₁' = −ε·(r₂₁·v₂₁) ≥ 0` (and ≥ that with a velocity floor). -/
+theorem c13_hardsphere_separating (st ct sp cp rr mcv t ρ R eps : K) (gb : GB K) (p1 p2 : Part K)
+    (hθ : st*st + ct*ct = 1) (hφ : sp*sp + cp*cp = 1)
+    (haθ : ct*ρ = (relOf p1 p2 gb).y21 ∧ st*ρ = (relOf p1 p2 gb).z21)
+    (haφ : cp*R = (relOf p1 p2 gb).x21 ∧
+           sp*R = ct*(relOf p1 p2 gb).y21 + st*(relOf p1 p2 gb).z21)
+    (hR : 0 < R) (heps : 0 ≤ eps) (hM : p1.m + p2.m ≠ 0)
+    (happ : (relOf p1 p2 gb).vx21*(relOf p1 p2 gb).x21 + (relOf p1 p2 gb).vy21*(relOf p1 p2 gb).y21
+              + (relOf p1 p2 gb).vz21*(relOf p1 p2 gb).z21 ≤ 0) :
+    let q := relOf p1 p2 gb
+    let vn := hsVn st ct sp cp q
+    let n := hsApply st ct sp cp (hsDvx2 eps mcv rr vn p1 p2) t p1 p2 p1 p2
+    let q' := relOf n.1 n.2 gb
+    R * vn = q.vx21*q.x21 + q.vy21*q.y21 + q.vz21*q.z21 ∧
+    0 ≤ q'.vx21*q'.x21 + q'.vy21*q'.y21 + q'.vz21*q'.z21 := by
+  intro q vn n q'
+  obtain ⟨a1, a2⟩ := haθ
+  obtain ⟨b1, b2⟩ := haφ
+  -- R·(cosφ, sinφ cosθ, sinφ sinθ) = r₂₁
+  have hρ : ct*q.y21 + st*q.z21 = ρ := by
+    show ct*(relOf p1 p2 gb).y21 + st*(relOf p1 p2 gb).z21 = ρ
+    rw [← a1, ← a2]; linear_combination ρ * hθ
+  have ux : cp * R = q.x21 := b1
+  have uy : sp * ct * R = q.y21 := by
+    show sp * ct * R = (relOf p1 p2 gb).y21
+    rw [← a1]; have : sp * R = ρ := by rw [b2]; exact hρ
+    linear_combination ct * this
+  have uz : sp * st * R = q.z21 := by
+    show sp * st * R = (relOf p1 p2 gb).z21
+    rw [← a2]; have : sp * R = ρ := by rw [b2]; exact hρ
+    linear_combination st * this
+  have hvn : R * vn = q.vx21*q.x21 + q.vy21*q.y21 + q.vz21*q.z21 := by
+    show R * hsVn st ct sp cp q = _
+    rw [← ux, ← uy, ← uz]; simp only [hsVn, sc_hadd, sc_hmul]; ring
+  have hvn0 : vn ≤ 0 := by
+    have : R * vn ≤ 0 := by rw [hvn]; exact happ
+    by_contra h
+    have : 0 < R * vn := mul_pos hR (not_le.mp h)
+    linarith
+  refine ⟨hvn, ?_⟩
+  -- positions unchanged, normal velocity becomes vn + dvx2 ≥ -eps*vn ≥ 0
+  have hnv := c13_hardsphere_normal_velocity st ct sp cp (hsDvx2 eps mcv rr vn p1 p2) t gb p1 p2 hθ hφ hM
+  have hpos : q'.x21 = q.x21 ∧ q'.y21 = q.y21 ∧ q'.z21 = q.z21 := by
+    simp only [q', q, n, relOf, hsApply, and_self]
+  have hge := hsDvx2_ge eps mcv rr vn p1 p2
+  have hvn' : hsVn st ct sp cp q' = vn + hsDvx2 eps mcv rr vn p1 p2 := hnv
+  have hnonneg : 0 ≤ hsVn st ct sp cp q' := by
+    rw [hvn']
+    have : 0 ≤ eps * (-vn) := mul_nonneg heps (by linarith)
+    linarith
+  have : R * hsVn st ct sp cp q' = q'.vx21*q'.x21 + q'.vy21*q'.y21 + q'.vz21*q'.z21 := by
+    rw [hpos.1, hpos.2.1, hpos.2.2, ← ux, ← uy, ← uz]; simp only [hsVn, sc_hadd, sc_hmul]; ring
+  rw [← this]
+  exact mul_nonneg hR.le hnonneg
+
+end hardsphere
+
+/-! ## 5. tree pruning -/
+section prune
+variable {K : Type} [Field K] [LinearOrder K] [IsStrictOrderedRing K]
+
+/-- soundness of the pruning test of the TREE walk (collision.c:579-585) as a geometric lemma:
+    if p2 lies within `h` of the cell centre in every coordinate, `√3·h ≤ k·w` (stated through
+    squares; `k` is the code's 0.86602540378443), p1 (ghost-shifted, at `g`) strictly overlaps
+    p2, and **hypothesis H**: `r₂ ≤ max_radius1` — then the walk descends into the cell.
+    H is what `max_radius0/1` are meant to guarantee for at least one end of every pair; the
+    code maintains them only in `reb_simulation_add`, so H fails after radii are assigned
+    later or grow in a merger (finding F8), and the LINETREE walk does not use them at all
+    (finding F18).  The tree walk itself is not modelled here (C15). -/
+theorem c13_tree_prune_sound (k maxR1 r1 r2 w h : K) (gx gy gz x2 y2 z2 cx cy cz : K)
+    (hr1 : 0 ≤ r1) (hr2 : 0 ≤ r2) (hk : 0 ≤ k) (hw : 0 ≤ w)
+    (hH : r2 ≤ maxR1)
+    (hcx : (x2 - cx)^2 ≤ h^2) (hcy : (y2 - cy)^2 ≤ h^2) (hcz : (z2 - cz)^2 ≤ h^2)
+    (hkh : 3 * h^2 ≤ (k*w)^2)
+    (hov : (gx - x2)^2 + (gy - y2)^2 + (gz - z2)^2 < (r1 + r2)^2) :
+    descends k maxR1 r1 w gx gy gz cx cy cz = true :=
+  descends_of_overlap k maxR1 r1 r2 w h gx gy gz x2 y2 z2 cx cy cz hr1 hr2 hk hw hH hcx hcy hcz hkh hov
+
+/-- the literal constant of the source, 0.86602540378443, is (slightly) *smaller* than √3/2, so
+    the lemma covers partners within 0.49999999999999·w of the cell centre per coordinate,
+    not the full half width: a partner in the outermost 2·10⁻¹⁴ of a cell corner, touching
+    within the same margin, is outside the guarantee. -/
+theorem c13_tree_prune_constant (w : K) (hw : 0 ≤ w) :
+    3 * ((49999999999999 / 100000000000000 : K) * w)^2 ≤ ((86602540378443 / 100000000000000 : K) * w)^2 ∧
+    ((86602540378443 / 100000000000000 : K))^2 < 3 / 4 := by
+  constructor
+  · have h : (3 : K) * (49999999999999 / 100000000000000)^2 ≤ (86602540378443 / 100000000000000)^2 := by
+      norm_num
+    have hw2 : 0 ≤ w^2 := sq_nonneg w
+    calc 3 * ((49999999999999 / 100000000000000 : K) * w)^2
+        = (3 * (49999999999999 / 100000000000000 : K)^2) * w^2 := by ring
+      _ ≤ ((86602540378443 / 100000000000000 : K))^2 * w^2 := mul_le_mul_of_nonneg_right h hw2
+      _ = ((86602540378443 / 100000000000000 : K) * w)^2 := by ring
+  · norm_num
+
+end prune
+
+/-! ## 6. hypotheses are satisfiable -/
+
+/-- a concrete instance of `c13_fixup_invariant`'s hypotheses: four particles, identities
+    10,20,30,40, three pending entries forming a chain, unsorted removal without tree -/
+example :
+    let s0 : Sim Nat := ⟨[10, 20, 30, 40], -1, 0, false, false, 0⟩
+    Cfg false s0 ∧ (ids id s0).Nodup ∧
+    List.Forall₂ (fun (e : Coll Unit) (d : Nat × Nat) => d.1 ≠ d.2 ∧
+        denote (ids id s0) e.p1 = some d.1 ∧ denote (ids id s0) e.p2 = some d.2)
+      [⟨0, 1, ()⟩, ⟨1, 3, ()⟩, ⟨3, 2, ()⟩] [(10, 20), (20, 40), (40, 30)] := by
+  refine ⟨⟨rfl, by simp, Or.inl rfl⟩, by simp [ids], ?_⟩
+  simp [ids, denote]
+
+/-- a concrete instance of the alignment hypotheses of `c13_hardsphere_separating` over ℚ-like
+    fields: relative position (3·4, 4·4, 3·... ) realised by a 3-4-5 rotation -/
+example {K : Type} [Field K] [LinearOrder K] [IsStrictOrderedRing K] :
+    let st : K := 4/5; let ct : K := 3/5; let sp : K := 4/5; let cp : K := 3/5
+    st*st + ct*ct = 1 ∧ sp*sp + cp*cp = 1 ∧
+    -- r₂₁ = (15, 12, 16): ρ = 20, y₂₁ₙ = 20, R = 25
+    ct*20 = (12 : K) ∧ st*20 = (16 : K) ∧ cp*25 = (15 : K) ∧ sp*25 = ct*12 + st*16 := by
+  refine ⟨?_, ?_, ?_, ?_, ?_, ?_⟩ <;> norm_num
 
 end RV.Collision
